@@ -77,6 +77,16 @@ class MonTemplate(BoundTemplate):
 class MonEnv(Environment):
     template_class = MonTemplate
 
+    def setup_tags_and_filters(self, *args: Any, **kwargs: Any) -> None:
+        super().setup_tags_and_filters(*args, **kwargs)
+        # the optional snippet tag binds a name too (an inline template): one more way for a body to "assign"
+        try:
+            from liquid.extra import SnippetTag
+
+            self.add_tag(SnippetTag)
+        except ImportError:  # pragma: no cover - older trees
+            pass
+
 
 NAMES = ["a", "b", "c", "x", "n"]
 WRAP = {
@@ -100,12 +110,18 @@ def body_src(ops: list) -> str:
             out.append(f"{{% capture {op[1]} %}}Q{op[2]}{{% endcapture %}}")
         elif k == "incr":
             out.append(f"{{% increment {op[1]} %}}")
+        elif k == "snippet":
+            out.append(f"{{% snippet {op[1]} %}}S{op[2]}{{% endsnippet %}}")
         elif k == "loop":
             out.append(f"{{% for {op[1]} in (1..2) %}}" + body_src(op[2]) + "{% endfor %}")
         elif k == "if":
             out.append(f"{{% if {op[1]} %}}Y{{% else %}}N{{% endif %}}")
         elif k == "filter":
             out.append(f"{{{{ {op[1]} | default: 'dflt' | upcase }}}}")
+        elif k == "ctxfilter":
+            # filters that look things up in the render context on their own (locale, currency code, message variables): inside a rendered
+            # partial / macro body that context is the isolated one
+            out.append({"decimal": "{{ 1234.5 | decimal }}", "currency": "{{ 12 | currency }}", "t": "{{ 'Hi %(a)s %(x)s' | t }}", "t-kw": "{{ 'Hi %(a)s %(x)s' | t: x: 'KW' }}"}[op[1]])
     return "".join(out)
 
 
@@ -119,6 +135,8 @@ def caller_src(variant: dict[str, Any], call: str, mid_loop: bool) -> str:
             pre.append(f"{{% capture {name} %}}{val}{{% endcapture %}}")
         elif how == "incr":
             pre.append(f"{{% increment {name} %}}" * (1 + len(val) % 3))
+    if variant.get("prime"):
+        pre.append("{{ 1 | decimal }}{{ 2 | currency }}{{ 'z %(a)s' | t }}")  # the caller itself used the context-aware filters before the call
     core_call = call
     for name, val in variant.get("withs", []):
         core_call = f"{{% with {name}: '{val}' %}}{core_call}{{% endwith %}}"
@@ -327,12 +345,16 @@ def gen_body(rng, depth=0) -> list:
             ops.append(["assign", n, rng.randint(1, 9)])
         elif r < 0.68:
             ops.append(["capture", n, rng.randint(1, 9)])
-        elif r < 0.75:
+        elif r < 0.72:
             ops.append(["incr", rng.choice(["n", "a"])])
+        elif r < 0.75:
+            ops.append(["snippet", n, rng.randint(1, 9)])
         elif r < 0.83:
             ops.append(["if", n])
-        elif r < 0.9:
+        elif r < 0.87:
             ops.append(["filter", n])
+        elif r < 0.92:
+            ops.append(["ctxfilter", rng.choice(["decimal", "currency", "t", "t-kw"])])
         elif depth < 1:
             inner = gen_body(rng, depth + 1) if rng.random() < 0.5 else []
             ops.append(["loop", rng.choice(["c", "x", "i"]), inner + [["read", "forloop.index"], ["read", "forloop.parentloop.index"], ["read", "forloop.parentloop.length"], ["if", "forloop.parentloop"]]])
@@ -351,6 +373,12 @@ def gen_variant(rng) -> dict[str, Any]:
         elif r < 0.6 and n in ("n", "a"):
             binds.append([n, "incr", "i" * rng.randint(1, 3)])
     withs = [[rng.choice(["x", "a", "b"]), f"W{rng.randint(1, 99)}"]] if rng.random() < 0.4 else []
+    if rng.random() < 0.35:
+        binds.append(["locale", "assign", rng.choice(["de_DE", "fr_FR", "en_GB"])])
+    if rng.random() < 0.25:
+        binds.append(["currency_code", rng.choice(["assign", "capture"]), rng.choice(["EUR", "GBP"])])
+    if rng.random() < 0.5:
+        return {"binds": binds, "withs": withs, "loopvar": rng.choice(["c", "x", "i"]), "mid_loop": rng.random() < 0.5, "prime": True}
     return {"binds": binds, "withs": withs, "loopvar": rng.choice(["c", "x", "i"]), "mid_loop": rng.random() < 0.5}
 
 
